@@ -127,7 +127,7 @@ func c08r1(c *RC) {
 			}
 		}
 	}
-	c.Floor("Slice accessor methods on the compile path", nacc, 60)
+	c.Floor("Slice accessor methods on the compile path", nacc, 30)
 	for _, fn := range fns {
 		bad := nondetUses(pr, fn)
 		c.Check(len(bad) == 0, fn.QName()+"|deterministic", pr.Pos(fn.Body.Pos()),
